@@ -555,10 +555,21 @@ def call_builtin(self, name, args, kwargs, st, node):
         yield self.alloc(st, want), st
         return
     if name == "sorted":
-        if "key" in kwargs or "reverse" in kwargs:
-            raise Untranslatable("sorted with key/reverse")
         x = a[0]
         view = self.view_of(x, st)
+        if "key" in kwargs or "reverse" in kwargs:
+            # order unspecified: an arbitrary permutation of the source (sound over-approximation)
+            n = view.length
+            pi = z3.Function(f"perm!{fresh('p', z3.IntSort())}", z3.IntSort(), z3.IntSort())
+            inv = z3.Function(f"perminv!{fresh('p', z3.IntSort())}", z3.IntSort(), z3.IntSort())
+            i = fresh("i", z3.IntSort())
+            st.assume(z3.ForAll([i], z3.Implies(z3.And(0 <= i, i < n), z3.And(0 <= pi(i), pi(i) < n, inv(pi(i)) == i))))
+            st.assume(z3.ForAll([i], z3.Implies(z3.And(0 <= i, i < n), z3.And(0 <= inv(i), inv(i) < n, pi(inv(i)) == i))))
+            self.assume_log("sorted(key=...): modelled as an arbitrary permutation of its input (order not tracked)")
+            out = View(n, lambda j: view.at(pi(j)), view.elt_t, distinct=view.distinct)
+            out.perm_of = (view, pi, inv)
+            yield out, st
+            return
         et = view.elt_t
         if et != Int:
             probe = view.at(fresh("p", z3.IntSort()))
